@@ -565,3 +565,21 @@ def fn_consts(fn):
             c = op_const(t["discr"])
             if c is not None:
                 yield bi, c
+
+
+def promoted_str(F, c):
+    """string value of a constant operand, looking through promoted constants (`&"lit"` behind a reference)"""
+    if c is None:
+        return None
+    if "str" in c:
+        return c["str"]
+    if "promoted" in c and "uneval" in c:
+        body = F.promoted.get((c["uneval"], c["promoted"]))
+        if body is not None:
+            for bi, b in enumerate(body["blocks"]):
+                for s in b["s"]:
+                    for o in all_operands_of_rv(s["rv"]):
+                        cc = op_const(o)
+                        if cc is not None and "str" in cc:
+                            return cc["str"]
+    return None
